@@ -4,8 +4,13 @@ import json, os, subprocess
 V = os.path.dirname(os.path.dirname(os.path.abspath(__file__)))
 PY = "PYTHONHASHSEED=0 PYTHONDONTWRITEBYTECODE=1 HGX_VERIF=1 /venv/bin/python -m hgxverif.run"
 
+READY = set(os.environ.get("HGX_READY", "C01 C02 C03 C04 C05 C08").split())
+
 CHECKS = {
  # id: (technique, level text, design_ref, note)
+ "C01": ("model-based history testing (Hypothesis-generated operation sequences vs. a dict/set reference model, full public observation after every step)",
+         "Every generated history (<=50 public mutator calls incl. rejected ones, copies, batches) is replayed on a 150-line reference model; all public queries incl. every order/size/up_to filter are compared as multisets after every step. Finds history-dependent faults (stale/duplicated incidence entries, wrong-key tables); establishes nothing beyond the explored histories.",
+         "2/C01", "trusted: RefHypergraph model, Hypothesis; unspecified corners are value sets or excluded (listed in evidence.assumptions)"),
  "C02": ("model-based history testing (generated operation sequences vs. a dict reference model keyed by (source set, target set))",
          "Same machine as C01 for DirectedHypergraph: role-specific incidence (source/target), direction (the reversed pair is generated on purpose), in/out degrees, neighbours, filters on total size, metadata survival; every public query compared after every step.",
          "2/C02", "trusted: RefDirected model, Hypothesis; remove_node only with keep_edges=False (quantifier)"),
@@ -15,9 +20,54 @@ CHECKS = {
  "C04": ("model-based history testing + aggregation/overlap oracle against a dict keyed by (node set, layer)",
          "History machine for MultiplexHypergraph (layered insertions incl. weighted batches with one node set in two layers, removals, keep_edges shrinks, weights, attribute helpers); after every step all queries are compared and aggregated_hypergraph()/edge_overlap are recomputed from the model, then the object is re-observed (incl. its hypergraph metadata) to be unchanged.",
          "2/C04", "trusted: RefMultiplex model; layer registry only bounded (layers in use <= reported <= ever inserted)"),
- "C01": ("model-based history testing (Hypothesis-generated operation sequences vs. a dict/set reference model, full public observation after every step)",
-         "Every generated history (<=50 public mutator calls incl. rejected ones, copies, batches) is replayed on a 150-line reference model; all public queries incl. every order/size/up_to filter are compared as multisets after every step. Finds history-dependent faults (stale/duplicated incidence entries, wrong-key tables); establishes nothing beyond the explored histories.",
-         "2/C01", "trusted: RefHypergraph model, Hypothesis; unspecified corners are value sets or excluded (listed in evidence.assumptions)"),
+ "C05": ("differential testing of every extractor against a content model of the generated source + copy-independence by mutation in both directions",
+         "Sources are built through public mutators with non-trivial internal ids (insert/remove detours), weights != ids, metadata, isolated nodes, singletons; each selection (node subset, order/size lists with repeats and absent values, order|size x up_to x keep_isolated_nodes, largest component with/without filter; directed filter) is compared with the model restricted by the selection (weights, metadata, node set) and the source is re-observed unchanged; copy() equality then up to six mutations on either side with the other side frozen.",
+         "2/C05", "trusted: content model + union-find oracle; aliasing between an extracted object and its source is not claimed by the property and not checked"),
+ "C06": ("round-trip testing (save/load, two formats, four container types) + grammar-based generation of hMETIS and HIF documents with a structural oracle",
+         "Generated objects of all four classes (weighted or not, int or str labels, isolated nodes, repeated node sets across times/layers, JSON metadata) are saved to a temporary directory as .json and .hgx, loaded and compared through the public observation; the saved object is deep-compared before/after saving; .hgr files are emitted from a grammar (fmt codes, comments, blank lines, weights) and HIF documents with node/edge/incidence records are checked against what the generator emitted through an injective name->id recovery.",
+         "2/C06", "trusted: the observation functions of C01-C04, json/pickle; reserved keys weight/time/layer excluded from metadata as the statement says"),
+ "C07": ("metamorphic testing: pairs of construction histories with the same abstract content must hash equal; single-element edits must hash different",
+         "For all four container types two histories (insertion order, node order, insert-then-remove detours of hyperedges and nodes, weights reached by re-insertion or set_weight, metadata via set_attr/remove_attr) ending in the same content are built and hashed; every kind of single edit (node, hyperedge, weight, time, layer, direction, weightedness, node/hyperedge/hypergraph metadata value) must change the hash; hashing never changes the observation.",
+         "2/C07", "trusted: the content model that certifies both histories end in the same content (checked through the C01-C04 observation), SHA-256"),
+ "C08": ("differential testing against brute-force definitions (counting, union-find) under all 13 order/size filters through methods and module functions",
+         "For each generated hypergraph (mixed sizes, isolated nodes, singletons, removed and doubly inserted hyperedges, int/str labels) every degree view and every connectivity wrapper is asked under no filter, size=1..6 and order=0..5 and compared with counting / union-find over the filtered node sets; degrees also for Directed, Temporal and Multiplex records.",
+         "2/C08", "trusted: 30-line union-find oracle; any maximum-size component accepted for largest_component"),
+ "C09": ("differential testing of every matrix/tensor against dense numpy matrices built from the abstract content through the returned mapping",
+         "Arbitrary non-contiguous int / string labels, isolated nodes, weighted or not, every order 0..max+1, keep_isolated_nodes both ways; mapping must be a bijection; incidence, weighted incidence, adjacency, by-order variants, degree matrix, Laplacians (L_d = d D_d - A_d, symmetric, zero row sums), dual adjacency, uniform adjacency tensor, temporal adjacency per time; a heavy-pair family (>=260 hyperedges sharing a pair) targets narrow integer dtypes. Exact integer comparison.",
+         "2/C09", "trusted: numpy dense reference built from the case; column order = position in get_edges()"),
+ "C10": ("differential testing against set-arithmetic definitions with exact rational thresholds",
+         "Bipartite, clique, line-graph (intersection and Jaccard, thresholds drawn so that pairs sit exactly at and just below s), directed line graph and simplicial complex are compared with definitions computed from the node sets with Fractions; id tables must be bijections; weights equal the similarity when weighted.",
+         "2/C10", "trusted: fractions arithmetic; Jaccard thresholds are rationals p/q with q<=6 passed as floats (sound: see DESIGN C10)"),
+ "C11": ("differential testing against exhaustive subset enumeration + independent enumeration of isomorphism classes + metamorphic relabelling/insertion-order invariance",
+         "For every 3- and 4-subset of nodes the induced pattern of hyperedges (size>=2) is classified by a canonical form computed as the minimum over all node permutations and counted; the library's keys must be in bijection with the independently enumerated 6 / 171 classes and carry the same counts; counts are invariant under label permutation, insertion order and addition of larger hyperedges; directed census: invariance, canonical representatives, positive integer counts.",
+         "2/C11", "trusted: brute-force canonicaliser (permutation minimum); runs_config_model=0 only"),
+ "C12": ("differential testing against definitions in exact rational arithmetic",
+         "in/out degrees (with filters) and sequences, the signature vector cell by cell with its sum identity and length, and exact/strong/weak reciprocity per size recomputed from their definitions on the size-bounded hyperedge set, in [0,1], 0 for empty sizes, exact<=strong<=weak; generators produce reversed and partially reversed pairs so that the three differ.",
+         "2/C12", "trusted: Fraction-based oracle"),
+ "C13": ("invariant checking over seeded random executions (degree-per-size never increases, equality when the hyperedge count is preserved)",
+         "Each input (>=2 hyperedges, repeated sizes) is run with several drawn seeds for label in {edge,stub}, detailed both ways, n_steps 0..200, optional size/order; invariants from the statement are checked on every output; directed model likewise with in/out degrees and (|S|,|T|) shapes.",
+         "2/C13", "trusted: counting oracle; the random outcomes are sampled over seeds, never exhausted"),
+ "C14": ("contract checking of samplers over seeded random executions",
+         "random_hypergraph / random_uniform_hypergraph (nodes, sizes, counts, seed reproducibility), scale_free_hypergraph (exact counts, defaults, correlated or not), HOADmodel, add_random_edge(s), random_shuffle(_all_orders) (other sizes intact with weights and metadata, p=0 identity, inplace=False) — each on drawn parameters and several drawn seeds.",
+         "2/C14", "trusted: counting oracle; global RNGs are seeded from the case"),
+ "C15": ("differential testing of closed forms against exhaustive enumeration over all possible hyperedges + EM invariants over refits with growing n_iter",
+         "poisson_params, log_kappa, expected_degree, dimension_sequence(expected=True), C() are compared (rtol 1e-9) with sums over all hyperedges of size 2..D on N<=7 nodes; fit() keeps supplied parameters bit-identical, finite, non-negative, w symmetric/diagonal; the exact Poisson likelihood (MAP objective under a prior) is non-decreasing over n_iter=1..8 with the same seed.",
+         "2/C15", "trusted: exhaustive-enumeration oracle in float64 with stated tolerances"),
+ "C16": ("invariant checking of every yielded sample over seeded chains (validity, conditioning, determinism)",
+         "Samples from an initial hypergraph, from degree/size sequences (matching or not) and from the model are checked for weightedness, positive integer weights, no repeats, sizes, node sets, never-exceeded degrees/size counts and exact equality when no two hyperedges coincided; two samplers with equal parameters and seed yield identical sequences.",
+         "2/C16", "trusted: counting oracle; chains sampled over seeds"),
+ "C17": ("invariant and differential checking of EM runs (validity, bookkeeping, ascent, agreement with the likelihood definition, determinism) over seeded fits",
+         "HypergraphMT.fit outputs are checked for shape, finiteness, sign, zero rows exactly for isolated nodes, row normalisation, maxL bookkeeping against train_info, ascent of loglik within a realisation (normalizeU=False), agreement with the definition (elementary symmetric polynomials) for min_value_par=0, and bit-identical reruns; HySC.fit gives a 0/1 matrix with one 1 per non-isolated node, deterministic.",
+         "2/C17", "trusted: independent likelihood from the textbook recurrence; add-only HGX_VERIF-guarded counters of numerical guard events attribute failures to guard call sites"),
+ "C18": ("differential testing against closed forms and a reference synchronous simulation",
+         "Transition matrix entries and row sums, stationary vector (fixed point, closed form), density propagation step by step, sampled walks step only along shared hyperedges; contagion trajectories in [0,1], start value, monotonicity for mu=0 / beta=beta_D=0, and exact agreement with a 15-line synchronous reference in the 8 deterministic regimes.",
+         "2/C18", "trusted: numpy reference; global RNG seeded from the case"),
+ "C19": ("differential testing against a criteria oracle on the abstract content + exact binomial p-values (Fractions) and recomputed step-up threshold",
+         "filter_hypergraph on Hypergraph/Temporal/Multiplex with node and hyperedge criteria, both modes, keep_edges both ways is compared with the matching rule applied to the model; get_svh tables list each hyperedge once, p-values equal exact binomial survival sums (rtol 1e-9), fdr column equals the threshold rule recomputed from the reported p-values.",
+         "2/C19", "trusted: Fraction binomial sums; default alpha"),
+ "C20": ("differential testing against networkx / scipy on independently built graphs and matrices + eigen-equation residuals + metamorphic relabelling",
+         "s-betweenness/closeness of hyperedges and nodes vs networkx on graphs built by the oracle, temporal averages from the abstract records, sub-hypergraph centrality vs log diag expm(A) (rtol 1e-8), CEC/HEC positivity, normalisation and residuals <= 1e-6 with tol=1e-12,max_iter=20000, and equivariance under label permutations.",
+         "2/C20", "trusted: networkx centralities, scipy.linalg.expm, numpy eigensolver"),
 }
 
 def main():
@@ -26,7 +76,7 @@ def main():
     checks = []
     for p in props:
         pid = p["id"]
-        if pid not in CHECKS:
+        if pid not in CHECKS or pid not in READY:
             not_applicable.append({"property_id": pid, "reason": "check not built yet in this round (planned in DESIGN.md section 2/%s); nothing is claimed for it" % pid})
             continue
         tech, text, ref, note = CHECKS[pid]
